@@ -15,6 +15,7 @@ type SVal struct {
 	Sort string
 	P    *Ptr // location of this value (struct values embedded in the heap, fields)
 	Tgt  *Ptr // for pointer values: static description of the pointee, if known
+	Box  string // interface values: the boxed term, if statically known
 	TypeArg types.Type // when the expression denotes a type
 	Nil  bool
 }
@@ -104,6 +105,12 @@ func (e *Env) lookupType(name string) types.Type {
 			if tn, ok := o.(*types.TypeName); ok {
 				return tn.Type()
 			}
+		}
+	}
+	if e.subst == nil {
+		// type parameters in scope of the function under contract
+		if tp := e.t.typeParam(name); tp != nil {
+			return tp
 		}
 	}
 	return nil
@@ -216,7 +223,9 @@ func (e *Env) eval(x *Expr) SVal {
 			if p == nil {
 				p = e.t.ptrFromRef(v.S, pt.Elem())
 			}
-			return SVal{S: e.inState(func() string { return e.t.load(p) }), T: pt.Elem(), Sort: e.t.sortOf(pt.Elem()), P: p}
+			r := SVal{S: e.inState(func() string { return e.t.load(p) }), T: pt.Elem(), Sort: e.t.sortOf(pt.Elem()), P: p}
+			e.groundRange(r)
+			return r
 		}
 	case "bin":
 		return e.evalBin(x)
@@ -354,7 +363,9 @@ func (e *Env) evalSel(x *Expr) SVal {
 			for _, i := range path {
 				p = e.t.fieldPtr(p, i)
 			}
-			return SVal{S: e.inState(func() string { return e.t.load(p) }), T: ft, Sort: e.t.sortOf(ft), P: p}
+			r := SVal{S: e.inState(func() string { return e.t.load(p) }), T: ft, Sort: e.t.sortOf(ft), P: p}
+			e.groundRange(r)
+			return r
 		}
 		s := base.S
 		cur := ST
@@ -378,6 +389,20 @@ func (e *Env) evalSel(x *Expr) SVal {
 	}
 	e.errf(x, "no field %s in %s", x.Name, ST)
 	return SVal{}
+}
+
+// groundRange emits the Go-typing range fact for a ground heap read (no bound variables).
+func (e *Env) groundRange(v SVal) {
+	if v.T == nil || v.Sort != "Int" || strings.Contains(v.S, "bv$") || strings.Contains(v.S, "sp$") {
+		return
+	}
+	if ii, ok := intInfoOf(e.resolveT(v.T)); ok {
+		key := "gr:" + v.S
+		if !e.t.declared[key] {
+			e.t.declared[key] = true
+			e.t.emit("(assert " + ii.inRange(v.S) + ")")
+		}
+	}
 }
 
 func (e *Env) hasLocal(n string) bool {
@@ -420,7 +445,9 @@ func (e *Env) evalIdx(x *Expr) SVal {
 			s := e.inState(func() string {
 				return app("select", app("select", e.t.get(c), app("s.base", base.S)), app("+", app("s.off", base.S), idx.S))
 			})
-			return SVal{S: s, T: u.Elem(), Sort: es}
+			r := SVal{S: s, T: u.Elem(), Sort: es}
+			e.groundRange(r)
+			return r
 		case *types.Array:
 			return SVal{S: app("select", base.S, idx.S), T: u.Elem(), Sort: e.t.sortOf(u.Elem())}
 		case *types.Map:
@@ -593,6 +620,9 @@ func (e *Env) evalCall(x *Expr) SVal {
 	case "unbox":
 		T := e.typeArg(x.Args[0])
 		v := e.eval(x.Args[1])
+		if v.Box != "" {
+			return SVal{S: v.Box, T: T, Sort: t.sortOf(T)}
+		}
 		return SVal{S: t.unbox(v.S, T), T: T, Sort: t.sortOf(T)}
 	case "sel":
 		a, i := e.eval(x.Args[0]), e.eval(x.Args[1])
@@ -611,7 +641,7 @@ func (e *Env) evalCall(x *Expr) SVal {
 		if v.P == nil {
 			e.errf(x, "addr of non-location")
 		}
-		return SVal{S: v.P.Ref, Sort: "Int"}
+		return SVal{S: t.termOfOpt(Val{P: v.P}), Sort: "Int"}
 	case "base":
 		v := e.eval(x.Args[0])
 		return SVal{S: app("s.base", v.S), Sort: "Int"}
@@ -656,6 +686,14 @@ func (e *Env) evalCall(x *Expr) SVal {
 }
 
 func (e *Env) lockComp(x *Expr) (string, string) {
+	if x.Op == "un" && x.Name == "*" {
+		// mutex referenced through a pointer-typed field: the lock is identified with that field of its
+		// owner (the mutex object is owned exclusively by the object that points to it)
+		inner := e.eval(x.Args[0])
+		if inner.P != nil && inner.P.Kind == "field" {
+			return e.t.comp("L"+inner.P.Comp[1:], "(Array Int Int)"), inner.P.Ref
+		}
+	}
 	v := e.eval(x)
 	if v.P == nil || v.P.Kind != "field" {
 		e.errf(x, "not a lock field")
